@@ -644,7 +644,14 @@ func (ls *LState) raiseError(level int, format string, args ...interface{}) {
 		message = fmt.Sprintf(format, args...)
 	}
 	if level > 0 {
-		message = fmt.Sprintf("%v %v", ls.where(level-1, true), message)
+		at := level - 1
+		if cf := ls.currentFrame; cf != nil && cf.Fn != nil && cf.Fn.IsG {
+			// raised from a host function: that function is level 0 and level 1 is its caller
+			at = level
+		}
+		if pos := ls.where(at, true); pos != "" {
+			message = fmt.Sprintf("%v %v", pos, message)
+		}
 	}
 	if ls.reg.IsFull() {
 		// if the registry is full then it won't be possible to push a value, in this case, force a larger size
